@@ -1869,3 +1869,211 @@ Proof.
       * destruct (fname_inj _ _ _ _ _ _ _ _ Hb Ht ND X3 X1 (RF _ K2) (RZ _ K1) E) as [_ Ee]. discriminate.
   - rewrite !zlen_app, !zlen_map, zrange_length. apply Z.eqb_eq. lia.
 Qed.
+
+(* ================================================================ whole histories: the model's observations pass C19_check *)
+
+Definition inv (s : state) (k : cst) : Prop :=
+  k_last k = s_last s /\
+  (l_cfgerr (s_l s) = false ->
+     k_cards k = l_active (s_l s) /\ NoDup (map c_dev (l_active (s_l s))) /\ dims_in_field (l_active (s_l s))) /\
+  (forall t src, s_last s = Some (t, src) -> NoDup (t_names t)).
+
+Lemma strs_eqb_refl l : strs_eqb l l = true.
+Proof. apply list_eqb_eq; [intros; apply String.eqb_eq | reflexivity]. Qed.
+Lemma pairs_eqb_refl l : pairs_eqb l l = true.
+Proof.
+  apply list_eqb_eq; [|reflexivity]. intros [a b] [c d]. cbn. rewrite andb_true_iff, !Z.eqb_eq.
+  split; [intros [-> ->]; reflexivity | intro E; inversion E; auto].
+Qed.
+Lemma msgs_ok_refl t : msgs_ok t (t_names t) (t_groups t) = true.
+Proof. unfold msgs_ok. now rewrite strs_eqb_refl, pairs_eqb_refl. Qed.
+
+Lemma group_keys_length pk : forall seen, zlen (group_keys pk seen) <= zlen seen + zlen pk.
+Proof.
+  induction pk as [|[n off] r IH]; intro seen; cbn [group_keys]; [unfold zlen; cbn; lia|].
+  rewrite zlen_cons. destruct (existsb _ seen).
+  - specialize (IH seen). lia.
+  - specialize (IH (seen ++ [(off, n)])). rewrite zlen_app in IH. unfold zlen in *. cbn [length] in *. lia.
+Qed.
+
+Lemma perm_zlen {A} (a b : list A) : Permutation a b -> zlen a = zlen b.
+Proof. intro P. unfold zlen. now rewrite (Permutation_length P). Qed.
+
+(* a start of the Lancero object (after Configure, or again) *)
+Lemma lancero_start_step l k (last0 : option (tables * string)) :
+  (l_cfgerr l = false -> k_cards k = l_active l /\ NoDup (map c_dev (l_active l)) /\ dims_in_field (l_active l)) ->
+  let '(l2, ob, r) := lancero_start l in
+  (l_cfgerr l2 = l_cfgerr l /\ l_active l2 = l_active l) /\
+  (match r with Some t => NoDup (t_names t) | None => True end) /\
+  match ob with
+  | ORejCfg => r = None
+  | ORej _ _ _ => r = None
+  | OAcc t mixed order nm gm =>
+      r = Some t /\ check_lancero (k_cards k) t mixed order = true /\ msgs_ok t nm gm = true
+  | _ => False
+  end.
+Proof.
+  intro H. unfold lancero_start. destruct (l_cfgerr l) eqn:E; [repeat split; auto|].
+  destruct (H eq_refl) as (K & ND & F).
+  destruct (lancero_prepare l) as [l' [t|]] eqn:P.
+  - destruct (lancero_prepare_accept _ _ _ P) as (es & gs & sd & mx & _ & _ & -> & _).
+    cbn [l_cfgerr l_active]. repeat split; auto.
+    + assert (D : dims_nonneg (l_active l)).
+      { unfold dims_nonneg, dims_in_field in *. rewrite Forall_forall in *. intros d Hd. specialize (F d Hd). lia. }
+      exact (proj2 (proj2 (proj2 (proj2 (lancero_numbering _ _ _ ND D P))))).
+    + rewrite K. exact (lancero_model_passes_checker _ _ _ ND F P).
+    + apply msgs_ok_refl.
+  - unfold lancero_prepare in P.
+    repeat match type of P with context [if ?c then _ else _] => destruct c end;
+      try (destruct (lancero_number l 0 false) as [[[? ?] ?] ?]; discriminate);
+      injection P as <-; cbn [set_sepCols l_cfgerr l_active]; repeat split; auto.
+Qed.
+
+Lemma step_preserves s k o :
+  inv s k -> wf_op o -> snd (step s o) <> OPanic ->
+  exists k', check_step k o (snd (step s o)) = Some k' /\ inv (fst (step s o)) k'.
+Proof.
+  intros (I1 & I2 & I3) W NP. destruct o as [avail req nsamp first sepCards sepCols geom| |pk|devs|n|n|n|row col rows cols|base today i offs].
+  - (* LRun *)
+    cbn [step] in *. destruct W as [WL WG].
+    destruct (lancero_configure (s_l s) avail req nsamp first sepCards sepCols geom) as [l1 ok] eqn:C.
+    assert (PRE : l_cfgerr l1 = false ->
+                  mk_cards req geom = l_active l1 /\ NoDup (map c_dev (l_active l1)) /\ dims_in_field (l_active l1) /\
+                  zlen (mk_cards req geom) = zlen req /\ forallb (fun c => zmem c avail) req = true).
+    { intro E. unfold lancero_configure in C. destruct ((nsamp >? 16) || (nsamp <? 1)).
+      - injection C as <- <-. cbn in E. discriminate.
+      - destruct (activate avail req []) as [act ok'] eqn:A. injection C as <- <-. cbn [l_cfgerr l_active] in *.
+        destruct ok'; [|discriminate].
+        destruct (activate_spec _ _ _ _ _ (NoDup_nil Z) A) as [ND I]. destruct (I eq_refl) as [-> AV]. cbn [app] in *.
+        unfold mk_cards. repeat split.
+        + rewrite map_map. cbn [c_dev]. now apply NoDup_fst_combine.
+        + unfold dims_in_field. apply Forall_forall. intros d Hd. apply in_map_iff in Hd as [[x [a b]] [<- Hx]].
+          cbn [c_ncols c_nrows fst snd]. apply in_combine_r in Hx. rewrite Forall_forall in WG. exact (WG _ Hx).
+        + rewrite zlen_map. unfold zlen in *. rewrite combine_length. lia.
+        + apply forallb_forall. intros c Hc. apply zmem_In. now apply AV. }
+    pose proof (lancero_start_step l1 (mkC (mk_cards req geom) None) None) as LS.
+    destruct (lancero_start l1) as [[l2 ob] r] eqn:ST. cbn [fst snd] in *.
+    assert (LS' := LS (fun E => let '(conj a (conj b (conj c _))) := PRE E in conj a (conj b c))). clear LS.
+    destruct LS' as ((E1 & E2) & NDr & OB).
+    destruct ob as [| sd mx sc | t mixed order nm gm | | | |]; try contradiction.
+    + subst r. eexists. split; [reflexivity|].
+      assert (E : l_cfgerr l1 = true).
+      { unfold lancero_start in ST. destruct (l_cfgerr l1) eqn:E; [reflexivity|].
+        destruct (lancero_prepare l1) as [? [?|]]; discriminate. }
+      split; [reflexivity|]. split; [cbn [s_l]; intro X; congruence | intros ? ? X; discriminate X].
+    + subst r. eexists. split; [reflexivity|].
+      split; [reflexivity|]. split; [|intros ? ? X; discriminate X].
+      cbn [s_l k_cards]. intro X. rewrite E1 in X. destruct (PRE X) as (P1 & P2 & P3 & _). rewrite E2. auto.
+    + destruct OB as (-> & CK & MS). cbn [k_cards] in CK.
+      assert (E : l_cfgerr l1 = false).
+      { unfold lancero_start in ST. destruct (l_cfgerr l1); [discriminate | reflexivity]. }
+      destruct (PRE E) as (P1 & P2 & P3 & P4 & P5).
+      cbn [check_step]. rewrite P4, Z.eqb_refl, P5, CK, MS. cbn [andb].
+      eexists. split; [reflexivity|].
+      split; [reflexivity|]. split.
+      * cbn [s_l k_cards]. intros _. rewrite E2. auto.
+      * intros t' src' Ht. cbn [s_last] in Ht. injection Ht as <- <-. exact NDr.
+  - (* LAgain *)
+    cbn [step] in *.
+    pose proof (lancero_start_step (s_l s) k None I2) as LS.
+    destruct (lancero_start (s_l s)) as [[l2 ob] r] eqn:ST. cbn [fst snd] in *.
+    destruct LS as ((E1 & E2) & NDr & OB).
+    destruct ob as [| sd mx sc | t mixed order nm gm | | | |]; try contradiction.
+    + subst r. eexists. split; [reflexivity|].
+      split; [reflexivity|]. split; [|intros ? ? X; discriminate X].
+      cbn [s_l k_cards]. intro X. rewrite E1 in X. rewrite E2. now apply I2.
+    + subst r. eexists. split; [reflexivity|].
+      split; [reflexivity|]. split; [|intros ? ? X; discriminate X].
+      cbn [s_l k_cards]. intro X. rewrite E1 in X. rewrite E2. now apply I2.
+    + destruct OB as (-> & CK & MS). cbn [check_step]. rewrite CK, MS. cbn [andb].
+      eexists. split; [reflexivity|].
+      split; [reflexivity|]. split.
+      * cbn [s_l k_cards]. intro X. rewrite E1 in X. rewrite E2. now apply I2.
+      * intros t' src' Ht. cbn [s_last] in Ht. injection Ht as <- <-. exact NDr.
+  - (* APrep *)
+    cbn [step] in *. destruct W as [WF WL]. destruct (abaco_sample pk) as [[sorted nchan]|] eqn:A.
+    + cbn [snd fst check_step acc].
+      destruct (abaco_identity _ _ _ A) as (P & _ & _ & _ & _ & _ & NDn & _). cbv zeta in NDn.
+      assert (L : zlen sorted < 65536).
+      { rewrite (perm_zlen _ _ P). pose proof (group_keys_length pk []). unfold zlen in *. cbn [length] in *. lia. }
+      rewrite (abaco_model_passes_checker _ _ _ WF A L), msgs_ok_refl. cbn [andb].
+      eexists. split; [reflexivity|]. repeat split; cbn [k_last s_last s_l k_cards]; try now apply I2.
+      intros t' src' Ht. injection Ht as <- <-. exact NDn.
+    + cbn [snd fst check_step]. eexists. split; [reflexivity|].
+      repeat split; cbn [k_last s_last s_l k_cards]; try now apply I2. discriminate.
+  - (* RPrep *)
+    cbn [step snd fst check_step acc] in *. rewrite (roach_model_passes_checker _ W), msgs_ok_refl. cbn [andb].
+    eexists. split; [reflexivity|]. repeat split; cbn [k_last s_last s_l k_cards]; try now apply I2.
+    intros t' src' Ht. injection Ht as <- <-.
+    exact (proj1 (proj2 (proj2 (proj2 (proj2 (single_group_sources _ [] 0 _ (or_introl eq_refl))))))).
+  - (* TPrep *)
+    cbn [step] in *. unfold triangle_prepare in *. destruct (n <? 1) eqn:E.
+    + cbn [snd fst check_step]. eexists. split; [reflexivity|].
+      repeat split; cbn [k_last s_last s_l k_cards]; try now apply I2. discriminate.
+    + cbn [snd fst check_step acc]. rewrite (sim_model_passes_checker n 0 ltac:(cbn in W; lia)), msgs_ok_refl. cbn [andb].
+      eexists. split; [reflexivity|]. repeat split; cbn [k_last s_last s_l k_cards]; try now apply I2.
+      intros t' src' Ht. injection Ht as <- <-.
+      exact (proj1 (proj2 (proj2 (proj2 (proj2 (single_group_sources n (sim_rc n) 0 _ (or_intror (or_introl eq_refl)))))))).
+  - (* SPrep *)
+    cbn [step] in *. unfold simpulse_prepare in *. destruct (n <? 1) eqn:E.
+    + cbn [snd fst check_step]. eexists. split; [reflexivity|].
+      repeat split; cbn [k_last s_last s_l k_cards]; try now apply I2. discriminate.
+    + cbn [snd fst check_step acc]. rewrite (sim_model_passes_checker n n ltac:(cbn in W; lia)), msgs_ok_refl. cbn [andb].
+      eexists. split; [reflexivity|]. repeat split; cbn [k_last s_last s_l k_cards]; try now apply I2.
+      intros t' src' Ht. injection Ht as <- <-.
+      exact (proj1 (proj2 (proj2 (proj2 (proj2 (single_group_sources n (sim_rc n) n _ (or_intror (or_introl eq_refl)))))))).
+  - (* EPrep *)
+    cbn [step snd fst check_step acc] in *. rewrite (erroring_model_passes_checker _ W), msgs_ok_refl. cbn [andb].
+    eexists. split; [reflexivity|]. repeat split; cbn [k_last s_last s_l k_cards]; try now apply I2.
+    intros t' src' Ht. injection Ht as <- <-.
+    exact (proj1 (proj2 (proj2 (proj2 (proj2 (single_group_sources n [] 0 _ (or_intror (or_introl eq_refl)))))))).
+  - (* RcCode *)
+    cbn [step snd fst check_step] in *.
+    destruct ((0 <=? row) && (row <? 65536) && (0 <=? col) && (col <? 65536) && (0 <=? rows) && (rows <? 65536)
+              && (0 <=? cols) && (cols <? 65536)) eqn:R.
+    + destruct (rc_decode row col rows cols ltac:(lia) ltac:(lia) ltac:(lia) ltac:(lia)) as (D1 & D2 & D3 & D4).
+      rewrite D1, D2, D3, D4, !Z.eqb_refl. cbn [andb]. exists k. split; [reflexivity | exact (conj I1 (conj I2 I3))].
+    + exists k. split; [reflexivity | exact (conj I1 (conj I2 I3))].
+  - (* Files *)
+    assert (INV : inv s k) by exact (conj I1 (conj I2 I3)).
+    cbn [step] in *. destruct W as [Wb Wt]. destruct (s_last s) as [[t src]|] eqn:L.
+    2:{ cbn [snd fst check_step]. exists k. split; [reflexivity | exact INV]. }
+    destruct (zlen (t_names t) <=? 0).
+    { cbn [snd fst check_step]. exists k. split; [reflexivity | exact INV]. }
+    destruct (files_of t src (make_directory base today i) offs) as [cf|] eqn:F.
+    2:{ cbn [snd] in NP. contradiction. }
+    cbn [snd fst check_step]. rewrite I1.
+    rewrite (files_model_passes_checker _ _ _ _ _ _ _ Wb Wt (I3 _ _ eq_refl) F).
+    exists k. split; [reflexivity | exact INV].
+Qed.
+
+Lemma run_passes_from : forall ops s k,
+  inv s k -> Forall wf_op ops -> ~ In OPanic (run s ops) -> check_from k (combine ops (run s ops)) = true.
+Proof.
+  induction ops as [|o ops IH]; intros s k I W NP; [reflexivity|].
+  inversion W as [|? ? Wo Wr]; subst. cbn [run] in *.
+  destruct (step s o) as [s' b] eqn:ST. cbn [combine check_from].
+  assert (NPb : snd (step s o) <> OPanic) by (rewrite ST; cbn; intro E; apply NP; left; auto).
+  destruct (step_preserves s k o I Wo NPb) as [k' [C I']]. rewrite ST in C, I'. cbn [fst snd] in C, I'.
+  rewrite C. apply IH; auto. intro H. apply NP. now right.
+Qed.
+
+Lemma model_history_passes_checker ops :
+  Forall wf_op ops -> ~ In OPanic (run state0 ops) -> C19_check (combine ops (run state0 ops)) = true.
+Proof.
+  intros W NP. apply run_passes_from; auto. unfold inv, state0, cst0, lsrc0. cbn. repeat split; try constructor.
+  intros t src H. discriminate.
+Qed.
+
+Definition ex_history : list op :=
+  [LRun [0;1;2;3] [3;0] 1 0 24 8 [(2,2);(1,2)]; Files "/data" "20260930" 0 [1;3;5];
+   APrep [(4,4);(4,0)]; Files "/data" "20260930" 1 []; TPrep 3; RcCode 5 1 40 8].
+Example ex_history_wf :
+  Forall wf_op ex_history /\ ~ In OPanic (run state0 ex_history) /\
+  exists cf n, nth 1 (run state0 ex_history) OPanic = OFiles "/data/20260930/0000/20260930_run0000_%s.%s" cf n /\ n = 28.
+Proof.
+  split; [|split].
+  - unfold ex_history. repeat constructor; cbn; try lia; try discriminate.
+  - vm_compute. intuition discriminate.
+  - eexists. eexists. vm_compute. split; reflexivity.
+Qed.
